@@ -475,6 +475,34 @@ fn spawn_async_ao_list_in_task'''),
 '''),
         ('on-exit-runs-err-trap', 'brush-core/src/shell/traps.rs', 'self.invoke_trap_handler(TrapSignal::Exit, &self.default_exec_params())', 'self.invoke_trap_handler(TrapSignal::Err, &self.default_exec_params())'),
     ],
+    'U18': [
+        ('id-is-len-plus-one-again', 'brush-core/src/jobs.rs', '''        let mut id = 1;
+        for j in &self.jobs {
+            if j.id >= id {
+                id = j.id + 1;
+            }
+        }
+        job.id = id;''', '''        let mut id = 1;
+        for j in &self.jobs {
+            if j.id >= id {
+                id = j.id + 1;
+            }
+        }
+        job.id = self.jobs.len() + 1;'''),
+        ('id-ignores-last-job', 'brush-core/src/jobs.rs', '            if j.id >= id {\n                id = j.id + 1;', '            if j.id > id {\n                id = j.id + 1;'),
+        ('new-job-not-current', 'brush-core/src/jobs.rs', '        job.annotation = JobAnnotation::Current;\n', ''),
+        ('sweep-skips-after-remove', 'brush-core/src/jobs.rs', '''                completed_jobs.push(self.jobs.remove(i));
+            } else {
+                i += 1;
+            }''', '''                completed_jobs.push(self.jobs.remove(i));
+                i += 1;
+            } else {
+                i += 1;
+            }'''),
+        ('sweep-removes-running-jobs', 'brush-core/src/jobs.rs', 'if self.jobs[i].tasks.is_empty() {\n                completed_jobs.push', 'if !self.jobs[i].tasks.is_empty() {\n                completed_jobs.push'),
+        ('sweep-swap-remove-reorders', 'brush-core/src/jobs.rs', 'completed_jobs.push(self.jobs.remove(i));', 'completed_jobs.push(self.jobs.swap_remove(i));'),
+        ('poll-drops-done-job', 'brush-core/src/jobs.rs', '                results.push((self.jobs.remove(i), Ok(ExecutionResult::success())));', '                self.jobs.remove(i);'),
+    ],
     'U19': [
         ('pop-forgets-function-depth', 'brush-core/src/callstack.rs', '''        if frame.frame_type.is_function() {
             self.func_call_depth = self.func_call_depth.saturating_sub(1);
